@@ -36,6 +36,9 @@ CHECKS["C09"]=dict(engine="node", design="5/C09", note="Trusted: RLIMIT_FSIZE an
 CHECKS["C11"]=dict(engine="node", design="5/C11", note=_node_note+" Both texts are compared as structs loaded by the vendored Prometheus library.",
   text="Seeded search over histories of configuration changes and assignments on a real sidecar (push and file mode): configurations are composed from a catalogue covering every auth kind, SD kind, limits, relabel programs and remote/alerting sections with unique secret tokens, rendered in drawn YAML styles; after every operation the injector's file is loaded with config.Load and compared field-wise with latest config x latest assignment (jobs and order, static entries per assigned target, proxy/http/no basic-auth/no TLS, no job secret in the text, ingestion settings kept, global/rule/alerting/remote sections deeply equal including secret values).")
 
+CHECKS["C16"]=dict(engine="node", design="5/C16", note="Trusted: the edit catalogue's tagging of an edit as semantic or cosmetic (value domains exclude textually different but equal values); a separate OS process stands in for 'different processes'. Input-dominated property (DESIGN 6): the simulated part is the process / sidecar-API dimension; the world engine covers in-sync over cycles.",
+  text="Seeded search over generated configurations x cosmetic re-renderings x single-setting semantic edits: equal text must hash equal in two config managers, in a child OS process and as reported by a real sidecar's runtimeinfo after the real push route; cosmetic variants (formatting, key order, quoting, comments, external labels) must hash equal; every semantic edit (each scalar kind incl. regexes and secrets, SD options, list reorder) must change the hash.")
+
 NOT_YET = {
 }
 
